@@ -1,10 +1,111 @@
 import Driver.Util
+import Hv.Conc.Cap
 
-/-! Placeholder: the line-protocol driver of domain C12 is not written yet. -/
+/-! Line-protocol driver for the Cap batch model (domain C12). Same ops and reply format as
+    `/verif/harness/c12.go`: `step B` performs the batch's next LTS action; a lock action that is
+    not enabled is reported `blocked` and performed as soon as the holder unlocks.  A reply carries
+    `#F:C12-count-before-capmu` when the model state has more matching records than the cap. -/
 namespace Driver.C12
+open Hv.Cap
 
-def run (_args : List String) : IO UInt32 := do
-  IO.eprintln "drv: domain C12 has no driver yet"
-  return 2
+structure DSt where
+  cfg : Cfg
+  s : St := init [] 0
+  started : Bool := false
+  npatch : Nat → Nat := fun _ => 0
+  results : Nat → List String := fun _ => []
+  blocked : Nat → Bool := fun _ => false
+  fin : Nat → Bool := fun _ => false
+
+def upd {α : Type} (f : Nat → α) (b : Nat) (v : α) : Nat → α := fun x => if x = b then v else f x
+
+def tail (d : DSt) : String :=
+  let mu := if d.s.capMu.isSome then "held" else "free"
+  s!"m={matching d.s} mu={mu}" ++ (if matching d.s > d.s.max then "\t#F:C12-count-before-capmu" else "")
+
+def act (d : DSt) (a : Act) : Option DSt :=
+  (step d.cfg d.s a).map fun s' => { d with s := s' }
+
+/-- the stop a batch is at after its lock/count statements: `mid` after the first, `patch` after the second -/
+def stopName (d : DSt) (b : Nat) : String :=
+  match (d.s.batch b).pc with
+  | .half => "mid"
+  | .run => "patch"
+  | _ => "?"
+
+/-- perform the last patch's successor: the deferred unlock, and let a blocked batch in -/
+def finish (d : DSt) (b : Nat) : DSt × String :=
+  let d := (act d (.unlock b)).getD d
+  let d := { d with fin := upd d.fin b true }
+  let rs := ",".intercalate (d.results b)
+  let reached := (d.results b).contains "X"
+  let msg := s!"done r=[{rs}] reached={reached}"
+  let o := 3 - b
+  if d.blocked o then
+    let a := if (d.s.batch o).pc == .ready then Act.first o else Act.second o
+    match act d a with
+    | some d' =>
+      let d' := { d' with blocked := upd d'.blocked o false }
+      (d', msg ++ s!" unblocked={o}@{stopName d' o}")
+    | none => (d, msg ++ " unblocked-timeout")
+  else (d, msg)
+
+def stepBatch (d : DSt) (b : Nat) : DSt × String :=
+  let x := d.s.batch b
+  match x.pc with
+  | .ready =>
+    match act d (.first b) with
+    | some d' => (d', "mid")
+    | none => ({ d with blocked := upd d.blocked b true }, "blocked")
+  | .half =>
+    match act d (.second b) with
+    | some d' => (d', "patch")
+    | none => ({ d with blocked := upd d.blocked b true }, "blocked")
+  | .run =>
+    let before := x.rejected
+    match act d (.patch b) with
+    | some d' =>
+      let r := if (d'.s.batch b).rejected > before then "X" else "P"
+      let d' := { d' with results := upd d'.results b (d'.results b ++ [r]) }
+      if (d'.s.batch b).todo.isEmpty then finish d' b else (d', "patch")
+    | none => (d, "skip")
+  | _ => (d, "skip")
+
+def parsePatch (s : String) : Option (Nat × Bool) :=
+  match s.splitOn ":" with
+  | [k, v] => k.toNat?.map (fun k => (k, v == "1"))
+  | _ => none
+
+def stepLine (d : DSt) (line : String) : DSt × String :=
+  match words line with
+  | "case" :: _ => ({ cfg := d.cfg }, line)
+  | "init" :: m :: recs =>
+    match m.toNat? with
+    | none => (d, "bad-op")
+    | some mx =>
+      let d := { d with s := init (recs.map (· == "1")) mx, started := true }
+      (d, s!"init {tail d}")
+  | "submit" :: bs :: ps =>
+    match bs.toNat? with
+    | none => (d, "skip")
+    | some b =>
+      if !d.started || ps.isEmpty || b < 1 || b > 2 || (d.s.batch b).pc != .idle then (d, "skip") else
+      let patches := ps.filterMap parsePatch
+      match act d (.submit b patches) with
+      | some d' => ({ d' with npatch := upd d'.npatch b patches.length }, s!"submit {b} pre {tail d'}")
+      | none => (d, "skip")
+  | ["step", bs] =>
+    match bs.toNat? with
+    | none => (d, "skip")
+    | some b =>
+      if d.fin b || d.blocked b || (d.s.batch b).pc == .idle || (d.s.batch b).pc == .done then (d, "skip") else
+      let (d', msg) := stepBatch d b
+      if msg == "skip" then (d', "skip") else (d', s!"step {b} {msg} {tail d'}")
+  | _ => (d, "bad-op")
+
+def run (args : List String) : IO UInt32 := do
+  let kv := parseArgs args
+  lineLoop stepLine { cfg := { countAfterLock := arg kv "countAfterLock" == "yes" } }
+  return 0
 
 end Driver.C12
